@@ -5,6 +5,7 @@
 
   One file-name base is modelled (files `<base>.<i>.pickle` and `<base>.mean.pickle`); with the repaired file filter
   (`re.fullmatch(re.escape(base) + r"\.[0-9]+\.pickle")`, fixes/C26_regex_escape.diff) different bases do not interact.
+  `save` includes the up-front existence check of fixes/C26_refused_save_side_effects.diff.
   A sample's pickled content is an abstract tag.
 -/
 import NiftyVerif.Model.Distributed
@@ -63,10 +64,16 @@ def writeRanks (ow : Bool) : Dir → List (List (Nat × Tag)) → Dir × Bool
     let r2 := writeRanks ow r1.1 rest
     (r2.1, r1.2 && r2.2)
 
+/-- `_ensure_no_existing_files` (fixes/C26_refused_save_side_effects.diff): without `overwrite`, every task checks all
+    its target files — the master also the mean file — before anybody writes -/
+def preCheck (d : Dir) (items : List (List (Nat × Tag))) (mean : Option Tag) : Bool :=
+  items.all (fun l => l.all (fun p => (d.files p.1).isNone)) && (mean.isNone || d.mean.isNone)
+
 /-- `save(file_name_base, overwrite)`; `mean = some m` for a ResidualSampleList -/
 def save (d : Dir) (xs : List Tag) (counts : List Nat) (ow : Bool) (mean : Option Tag) : Dir × Except Err Unit :=
   let n := xs.length
   if !ow && (d.files n).isSome then (d, .error .fileExists) else
+  if !ow && !preCheck d (allItems xs 0 counts) mean then (d, .error .fileExists) else
   let d0 : Dir := if ow then { d with files := fun j => if j = n then none else d.files j } else d
   let r := writeRanks ow d0 (allItems xs 0 counts)
   if !r.2 then (r.1, .error .fileExists) else
